@@ -50,11 +50,13 @@ DESIGN.md section 5 / C11 list, status:
                               loops breaks the weight clause: `impose_measure_other_order_witness`.  ACROSS rounds the
                               clause is false for the code as it is (older rounds run last):
                               `applied_weight_reweighted_by_older_round_witness` (known findings F27-F29).
-NOT modelled: collapse_cost / CollapseCost (bounds collapse), `update_mask(new=True)`, masks of mixed formats.
+collapse_cost / CollapseCost (bounds collapse): section CostCollapse at the end of this file.
+NOT modelled: `update_mask(new=True)`, masks of mixed formats.
 -/
 import MysticVerif.Proofs.Collapse
 import MysticVerif.Proofs.CollapseApply
 import MysticVerif.Proofs.CollapseMeasure
+import MysticVerif.Proofs.CollapseCost
 import Mathlib.Logic.Relation
 import Mathlib.Algebra.Order.Field.Rat
 import Mathlib.Tactic.NormNum
@@ -1285,5 +1287,121 @@ example : keyFree (connected [(1, 2), (0, 2), (0, 1)]) = false ∧ keyFree (conn
   decide
 
 end MeasureApply
+
+/-! ## Bounds collapse: `collapse_cost` (collapse.py l.243-333), Model/CollapseCost.lean
+
+What "meets its documented tolerance test" means for `collapse_cost` ("Bounds collapse will occur when
+cost(param) - min(cost) >= limit, for all N samples within an interval"): sort the records of parameter `p` by value and
+flag the records whose cost is within `limit` of the lowest recorded cost (good).  A BAD RUN is a maximal run of at
+least `samples` consecutive bad records.  Per definition
+  (S3) `p` is reported iff there is a good record and a bad run,
+  (S1) no record of a bad run lies strictly inside a reported interval,
+  (S2) every good record lies inside a reported interval,
+and with a mask the result is the interval-wise intersection with the mask, `{}` when that adds nothing.
+S1-S3 are evaluated on the implementation's results by the monitor of stream `cost` (run-based, independent of the
+where/diff code path); the code as it is VIOLATES them in two recorded ways (kernel-checked below):
+  * the last interval starts at `par[..] + d[..]`, a sample count added to a parameter value (l.318, finding F50),
+  * `clip=True` drops the outer interval, good records included, when the extreme record is bad (l.310-311, F51).
+Proved here for ALL inputs: the interval algebra of the mask step (`_interval_intersection` is sound and complete for
+interior points over any linear order), and the own-output clause: with duplicate-free keys and chain-ordered non-empty
+interval lists (what `collapse_cost` returns when the recorded values of a parameter are pairwise different - the driver
+evaluates `chainOrd` on every case) the detector fed its own output as mask returns `{}`.  With tied recorded values the
+output holds degenerate intervals and the clause FAILS (F52, witness below); a parameter whose new bounds do not meet
+its mask is dropped instead of kept (F54, witness below).
+NOT proved (correspondence + monitor only): S1-S3 for the lower and interior intervals from the where/diff scan. -/
+section CostCollapse
+
+variable {K : Type} [LinearOrder K]
+
+/-- `_interval_intersection` (tools.py l.881-895), soundness: a point inside (closed) an interval of the result is inside
+an interval of each argument - the new bounds of a masked parameter lie inside its mask and inside the fresh bounds -/
+theorem cost_interval_intersection_sound (A B : Ivs K) (hA : A ≠ []) (hB : B ≠ []) (x : K)
+    (h : ∃ r ∈ ivInter A B, r.1 ≤ x ∧ x ≤ r.2) :
+    (∃ a ∈ A, a.1 ≤ x ∧ x ≤ a.2) ∧ (∃ c ∈ B, c.1 ≤ x ∧ x ≤ c.2) := by
+  obtain ⟨r, hr, h1, h2⟩ := h
+  obtain ⟨a, ha, c, hc, rfl, _⟩ := (mem_ivInter A B hA hB r).mp hr
+  exact ⟨⟨a, ha, le_trans (le_max_left _ _) h1, le_trans h2 (min_le_left _ _)⟩,
+         ⟨c, hc, le_trans (le_max_right _ _) h1, le_trans h2 (min_le_right _ _)⟩⟩
+
+/-- completeness for interior points: a point strictly inside an interval of each argument is strictly inside an
+interval of the result (only the end points of touching intervals are lost by the test `l < h`, l.893) -/
+theorem cost_interval_intersection_complete (A B : Ivs K) (x : K)
+    (ha : ∃ a ∈ A, a.1 < x ∧ x < a.2) (hc : ∃ c ∈ B, c.1 < x ∧ x < c.2) :
+    ∃ r ∈ ivInter A B, r.1 < x ∧ x < r.2 := by
+  obtain ⟨a, haA, a1, a2⟩ := ha
+  obtain ⟨c, hcB, c1, c2⟩ := hc
+  have hA : A ≠ [] := by intro e; rw [e] at haA; cases haA
+  have hB : B ≠ [] := by intro e; rw [e] at hcB; cases hcB
+  refine ⟨(max a.1 c.1, min a.2 c.2), (mem_ivInter A B hA hB _).mpr ⟨a, haA, c, hcB, rfl, ?_⟩, max_lt a1 c1, lt_min a2 c2⟩
+  exact lt_trans (max_lt a1 c1) (lt_min a2 c2)
+
+/-- "feeding a detector its own output as mask yields nothing new", `collapse_cost`: whenever the unmasked call returns
+`R` with duplicate-free keys and non-empty chain-ordered interval lists, the call with (any accepted spelling of) `R`
+as mask returns `{}` - for ALL histories, costs, limits, windows, clip flags. -/
+theorem own_output_as_mask_is_empty_cost (ninf pinf : K) (addc : K → Nat → K) [Sub K] (hist : List (List K))
+    (costs : List K) (perms : Option (List (List Nat))) (clip : Bool) (limit : K) (samples : Option Int)
+    (R : BDict K) (m : CMask K)
+    (h : collapseCost ninf pinf addc hist costs perms clip limit samples CMask.none = .ok R)
+    (hm : checkCMask m = .ok (some R))
+    (hnd : (R.map (·.1)).Nodup) (hch : ∀ kv ∈ R, chainOrd kv.2 = true ∧ kv.2 ≠ []) :
+    collapseCost ninf pinf addc hist costs perms clip limit samples m = .ok [] := by
+  unfold collapseCost at h ⊢
+  rw [hm]
+  simp only [checkCMask] at h
+  cases hc : collapseCostCore ninf pinf addc hist costs perms clip limit samples with
+  | error e => rw [hc] at h; cases h
+  | ok res =>
+    rw [hc] at h
+    simp only [costMaskStep] at h
+    have : res = R := by injection h
+    subst this
+    simp only
+    rw [costMaskStep_self res hnd hch]
+
+-- non-vacuity: an output of the detector (two intervals around a bad run) satisfies the hypotheses, and the mask step
+-- with it as mask is empty
+example : chainOrd [((-1000 : Int), 30), (80, 1000)] = true ∧
+    costMaskStep [(some 0, [((-1000 : Int), 30), (80, 1000)])] (some [(some 0, [((-1000 : Int), 30), (80, 1000)])]) = [] := by
+  decide
+
+/-- F50, kernel-checked: records 0, 10, .., 90, the records 30..70 bad, `samples = 5`, `clip = False`
+(`-1000 / 1000` stand for `-inf / inf`, `addc v k = v + k`): the reported bounds are `(-inf, 30), (35, inf)` -
+the bad record 40 lies strictly inside the second interval; per definition it starts at 80 -/
+theorem cost_upper_adds_count_witness :
+    (colBounds (-1000 : Int) 1000 (fun v k => v + (k : Int)) false 5 [0, 10, 20, 30, 40, 50, 60, 70, 80, 90]
+      [true, true, true, false, false, false, false, false, true, true]).toOption
+      = some [(-1000, 30), (35, 1000)] ∧ (35 : Int) < 40 ∧ (40 : Int) < 1000 := by
+  decide
+
+/-- F51, kernel-checked: records 0, 10, .., 90 with the good records 10, 20, 60, 70 and `samples = 3`: with `clip = True`
+nothing is reported (both extreme records are bad) although the records 30, 40, 50 are a bad run, which `clip = False`
+does report -/
+theorem cost_clip_drops_good_region_witness :
+    (colBounds (-1000 : Int) 1000 (fun v k => v + (k : Int)) true 3 [0, 10, 20, 30, 40, 50, 60, 70, 80, 90]
+      [false, true, true, false, false, false, true, true, false, false]).toOption = some [] ∧
+    (colBounds (-1000 : Int) 1000 (fun v k => v + (k : Int)) false 3 [0, 10, 20, 30, 40, 50, 60, 70, 80, 90]
+      [false, true, true, false, false, false, true, true, false, false]).toOption = some [(-1000, 30), (33, 1000)] := by
+  decide
+
+/-- F52, kernel-checked: tied recorded values (0, 1, 1, 1, 2, 3, 4 with the flags good, bad, good, bad, bad, bad, good,
+`samples = 1`) give the degenerate interval `(1, 1)`; the intersection of that output with itself drops it, so the
+detector fed its own output as mask reports again -/
+theorem cost_own_output_degenerate_witness :
+    (colBounds (-1000 : Int) 1000 (fun v k => v + (k : Int)) false 1 [0, 1, 1, 1, 2, 3, 4]
+      [true, false, true, false, false, false, true]).toOption = some [(-1000, 1), (1, 1), (4, 1000)] ∧
+    costMaskStep [(some 0, [((-1000 : Int), 1), (1, 1), (4, 1000)])] (some [(some 0, [((-1000 : Int), 1), (1, 1), (4, 1000)])])
+      = [(some 0, [(-1000, 1), (4, 1000)])] := by
+  decide
+
+/-- F54, kernel-checked: the fresh bounds of parameter 0 do not meet its mask `(31, 34)`: the parameter is DROPPED from
+the result (the mask shrinks), and with that result as mask it is reported afresh -/
+theorem cost_masked_parameter_dropped_witness :
+    costMaskStep [(some 0, [((-1000 : Int), 30), (35, 1000)])] (some [(some 0, [(31, 34)]), (some 1, [(0, 1)])])
+      = [(some 1, [(0, 1)])] ∧
+    costMaskStep [(some 0, [((-1000 : Int), 30), (35, 1000)])] (some [(some 1, [(0, 1)])])
+      = [(some 0, [(-1000, 30), (35, 1000)]), (some 1, [(0, 1)])] := by
+  decide
+
+end CostCollapse
 
 end MysticVerif.C11
